@@ -211,8 +211,103 @@ fn oracle(sess: &Session) -> BTreeMap<(usize, usize), String> {
     m
 }
 
+/// Deterministic session (no wall-clock margins on the scanners under test): scanner A is made to
+/// time out in its PATTERN SEARCH `DET_K` times through the tick hook (`Scanner::verif_timeout_at_poll`:
+/// at A's 2nd poll -- the first deadline poll of ac_search_loop -- the hook does what the heartbeat
+/// thread does until A's own 1 s deadline has passed) while scanner B, on another thread, with a
+/// timeout of DET_K + DET_MARGIN seconds, evaluates a condition loop.  Simulated ticks seen by B:
+/// DET_K; real ones: the wall time of the session (<< DET_MARGIN): B's own deadline cannot pass and
+/// B must complete with its solo result.  (If a scanner-side timeout path advanced the engine-wide
+/// epoch, B's epoch deadline would arrive after DET_K more "ticks".)
+const DET_K: u64 = 400;
+const DET_MARGIN: u64 = 300;
+
+fn det_child() -> i32 {
+    quiet_panics();
+    let mut c = yara_x::Compiler::new();
+    c.define_global("iterations", 1_i64).unwrap();
+    c.add_source("rule search_heavy { strings: $a = \"abcd\" condition: $a }\nrule eval_heavy { condition: filesize < 100 and for all i in (0..iterations) : ( i + filesize != 3 ) }\n").unwrap();
+    let rules = c.build();
+    let expected = |r: &yara_x::ScanResults| -> bool {
+        let m: Vec<String> = r.matching_rules().map(|x| x.identifier().to_string()).collect();
+        m == vec!["eval_heavy".to_string()]
+    };
+    let t_start = Instant::now();
+    let mut out: Vec<String> = vec![];
+    let mut push = |t: usize, kind: &str, engine: bool, to: Option<u64>, class: &str, eq: bool, ms: u64| {
+        out.push(format!("{{\"t\":{},\"k\":\"{}\",\"e\":{},\"to\":{},\"c\":\"{}\",\"eq\":{},\"ms\":{},\"key\":null,\"got\":null}}",
+            t, kind, engine, to.map_or("null".to_string(), |s| s.to_string()), class, eq, ms));
+    };
+    let b_timeout = DET_K + DET_MARGIN;
+    let data_a: Vec<u8> = b"abcd ".iter().cycle().take(1000).cloned().collect();
+    let b_started = std::sync::atomic::AtomicBool::new(false);
+    let b_done = std::sync::atomic::AtomicBool::new(false);
+    let (mut fired, mut during) = (0u64, 0u64);
+    let mut a_recs: Vec<(&'static str, u64)> = vec![];
+    let mut b_rec: (&'static str, bool, u64) = ("error", false, 0);
+    let mut b_cal: (&'static str, bool, u64) = ("error", false, 0);
+    let mut iterations: i64 = 0;
+    let rules = &rules;
+    std::thread::scope(|s| {
+        let hb = s.spawn(|| {
+            // B alone, no timeout: calibrate the loop to about 2.5 s (a Scanner cannot move between threads)
+            let mut b = yara_x::Scanner::new(rules);
+            let probe: i64 = 20_000_000;
+            b.set_global("iterations", probe).unwrap();
+            let t0 = Instant::now();
+            let (cls, eq) = match b.scan(b"small") { Ok(r) => ("done", expected(&r)), Err(yara_x::ScanError::Timeout) => ("timeout", true), Err(_) => ("error", false) };
+            let el = t0.elapsed();
+            let cal = (cls, eq, el.as_millis() as u64);
+            let per_iter = el.as_secs_f64() / probe as f64;
+            let iterations = ((2.5 / per_iter.max(1e-10)) as i64).clamp(1_000_000, 3_000_000_000);
+            b.set_global("iterations", iterations).unwrap();
+            b.set_timeout(Duration::from_secs(b_timeout));
+            b_started.store(true, std::sync::atomic::Ordering::SeqCst);
+            let t0 = Instant::now();
+            let r = catch(AssertUnwindSafe(|| match b.scan(b"small") { Ok(r) => ("done", expected(&r)), Err(yara_x::ScanError::Timeout) => ("timeout", true), Err(_) => ("error", false) }));
+            b_done.store(true, std::sync::atomic::Ordering::SeqCst);
+            let (c, e) = r.unwrap_or(("panic", false));
+            (cal, iterations, (c, e, t0.elapsed().as_millis() as u64))
+        });
+        let ha = s.spawn(|| {
+            while !b_started.load(std::sync::atomic::Ordering::SeqCst) { std::thread::yield_now(); }
+            std::thread::sleep(Duration::from_millis(40));
+            let (mut fired, mut during) = (0u64, 0u64);
+            let mut recs = vec![];
+            for _ in 0..DET_K {
+                let mut a = yara_x::Scanner::new(rules);
+                a.set_timeout(Duration::from_secs(1));
+                yara_x::Scanner::verif_timeout_at_poll(Some(2));
+                let t0 = Instant::now();
+                let cls = match catch(AssertUnwindSafe(|| a.scan(&data_a).map(|_| ()))) {
+                    Ok(Ok(())) => "done", Ok(Err(yara_x::ScanError::Timeout)) => "timeout", Ok(Err(_)) => "error", Err(_) => "panic" };
+                let ms = t0.elapsed().as_millis() as u64;
+                if yara_x::Scanner::verif_timeout_fired() { fired += 1; }
+                yara_x::Scanner::verif_timeout_at_poll(None);
+                if !b_done.load(std::sync::atomic::Ordering::SeqCst) { during += 1; }
+                recs.push((cls, ms));
+            }
+            (fired, during, recs)
+        });
+        match hb.join() { Ok((cal, it, rec)) => { b_cal = cal; iterations = it; b_rec = rec; } Err(_) => { b_done.store(true, std::sync::atomic::Ordering::SeqCst); b_started.store(true, std::sync::atomic::Ordering::SeqCst); } }
+        if let Ok((f, d, r)) = ha.join() { fired = f; during = d; a_recs = r; }
+    });
+    for (cls, ms) in &a_recs {
+        push(0, "new", true, None, "done", true, 0);
+        // a completed A scan (the hook did not fire) has no oracle here: it is reported as different
+        push(0, "scan_search_timeout", false, Some(1), cls, *cls == "timeout", *ms);
+    }
+    push(1, "new", true, None, "done", true, 0);
+    push(1, "scan_calibrate", false, None, b_cal.0, b_cal.1, b_cal.2);
+    push(1, "scan_long_condition", false, Some(b_timeout), b_rec.0, b_rec.1, b_rec.2);
+    println!("{{\"wall_ms\":{},\"sim_ticks\":{},\"det\":{{\"a_timeouts_fired\":{},\"a_timeouts_while_b_ran\":{},\"b_iterations\":{},\"b_timeout_s\":{}}},\"ops\":[{}]}}",
+        t_start.elapsed().as_millis(), fired, fired, during, iterations, b_timeout, out.join(","));
+    0
+}
+
 /// the concurrent session; prints one JSON line
 fn child(args: &[String]) -> i32 {
+    if arg_u64(args, "--det", 0) == 1 { return det_child(); }
     quiet_panics();
     let seed = arg_u64(args, "--seed", 1);
     let n = arg_u64(args, "--threads", 4) as usize;
@@ -313,8 +408,10 @@ fn run(args: &[String]) -> i32 {
     let ncpu = std::thread::available_parallelism().map(usize::from).unwrap_or(8).min(16).max(2);
     for k in 0..n {
         let sseed = rng.next() & 0xffff_ffff_ffff;
-        let threads = match rng.below(4) { 0 => 2 + rng.below(3) as usize, 1 => ncpu, _ => 2 + rng.below(ncpu as u64 - 1) as usize };
-        let cold = rng.chance(1, 2);
+        // the first session of every run is the deterministic one (regression corpus)
+        let det = k == 0 && !arg_flag(args, "--no-det");
+        let threads = if det { 2 } else { match rng.below(4) { 0 => 2 + rng.below(3) as usize, 1 => ncpu, _ => 2 + rng.below(ncpu as u64 - 1) as usize } };
+        let cold = rng.chance(1, 2) && !det;
         // slow scans cost up to 2 s of wall time each (they run in parallel): in most sessions, on a few threads
         let n_slow = if rng.chance(3, 4) { 1 + rng.below(3.min(threads as u64)) as usize } else { 0 };
         let sess = gen_session(sseed);
@@ -324,7 +421,7 @@ fn run(args: &[String]) -> i32 {
         std::fs::write(&pb, compile(&sess.src_b).serialize().unwrap()).unwrap();
         let mut ch = Command::new(std::env::current_exe().unwrap())
             .args(["--child", "--seed", &sseed.to_string(), "--threads", &threads.to_string(), "--cold", if cold { "1" } else { "0" },
-                   "--slow", &n_slow.to_string(), "--bytes-a", pa.to_str().unwrap(), "--bytes-b", pb.to_str().unwrap()])
+                   "--det", if det { "1" } else { "0" }, "--slow", &n_slow.to_string(), "--bytes-a", pa.to_str().unwrap(), "--bytes-b", pb.to_str().unwrap()])
             .stdin(Stdio::null()).stdout(Stdio::piped()).stderr(Stdio::piped()).spawn().expect("spawn child");
         let mut so = ch.stdout.take().unwrap();
         let mut se = ch.stderr.take().unwrap();
@@ -335,7 +432,7 @@ fn run(args: &[String]) -> i32 {
         let status = loop {
             match ch.try_wait().unwrap() {
                 Some(st) => break st.code(),
-                None => { if t0.elapsed() > Duration::from_secs(90) { killed = true; let _ = ch.kill(); let _ = ch.wait(); break None; } std::thread::sleep(Duration::from_millis(5)); }
+                None => { if t0.elapsed() > Duration::from_secs(if det { 240 } else { 90 }) { killed = true; let _ = ch.kill(); let _ = ch.wait(); break None; } std::thread::sleep(Duration::from_millis(5)); }
             }
         };
         let stdout = t1.join().unwrap();
@@ -344,13 +441,20 @@ fn run(args: &[String]) -> i32 {
         let parsed: Option<serde_json::Value> = stdout.lines().rev().find(|l| l.starts_with('{')).and_then(|l| serde_json::from_str(l).ok());
         let ok = status == Some(0) && !killed && parsed.as_ref().map_or(false, |v| v.get("ops").is_some());
         stats.inc("sessions");
-        stats.inc(if cold { "sessions_cold_first_use_concurrent" } else { "sessions_warm" });
+        stats.inc(if det { "sessions_deterministic_tick_hook" } else if cold { "sessions_cold_first_use_concurrent" } else { "sessions_warm" });
         stats.inc(&format!("threads_{}", match threads { 2..=4 => "2-4", 5..=8 => "5-8", _ => "9-16" }));
         let mut coq_ops = vec![];
         let mut wall_ms = 0u64;
+        let mut sim_ticks = 0u64;
         let mut bad: Vec<String> = vec![];
         if let Some(v) = &parsed {
             wall_ms = v.get("wall_ms").and_then(|x| x.as_u64()).unwrap_or(0);
+            sim_ticks = v.get("sim_ticks").and_then(|x| x.as_u64()).unwrap_or(0);
+            if let Some(d) = v.get("det") {
+                stats.add("det_a_search_timeouts", d["a_timeouts_fired"].as_u64().unwrap_or(0));
+                stats.add("det_a_search_timeouts_while_b_ran", d["a_timeouts_while_b_ran"].as_u64().unwrap_or(0));
+                stats.add("det_b_timeout_s", d["b_timeout_s"].as_u64().unwrap_or(0));
+            }
             for o in v.get("ops").and_then(|x| x.as_array()).cloned().unwrap_or_default() {
                 let t = o["t"].as_u64().unwrap_or(0);
                 let kind = o["k"].as_str().unwrap_or("?").to_string();
@@ -365,6 +469,7 @@ fn run(args: &[String]) -> i32 {
                 if class == "timeout" { stats.inc(if kind == "scan_slow" { "timeouts_slow_rule" } else { "timeouts_fast_scan" }); }
                 let cls = match class.as_str() { "done" => "CDone", "timeout" => "CTimeout", _ => "CError" };
                 if class == "timeout" && to.is_none() { bad.push(format!("timeout-without-deadline:{}", kind)); }
+                else if class == "timeout" && to.map_or(false, |s| s.min(315_360_000) > wall_ms / 1000 + 1 + sim_ticks) { bad.push(format!("timeout-before-own-deadline:{}", kind)); }
                 else if class != "done" && class != "timeout" { bad.push(format!("{}:{}", class, kind)); }
                 else if class == "done" && !eq { bad.push(format!("differs-from-sequential:{}", kind)); }
                 coq_ops.push(format!("mkOp {} {} {} {} {} {}", coq_nat(t as usize), if engine { "KEngine" } else { "KScan" },
@@ -375,15 +480,15 @@ fn run(args: &[String]) -> i32 {
         bad.sort(); bad.dedup();
         if !bad.is_empty() { stats.inc("sessions_with_anomaly"); }
         distinct.insert((sseed, threads, cold));
-        let case = format!("mkCase {} [{}] {} {} {}", coq_nat(threads), coq_ops.join("; "), coq_n(wall_ms), coq_bool(ok), coq_n(sseed));
-        let replay = format!("{{\"session\":{},\"seed\":{},\"session_seed\":{},\"threads\":{},\"cold\":{},\"slow_threads\":{},\"wall_ms\":{},\"child_status\":{},\"killed\":{},\"class\":{},\"rules_a\":{},\"stderr_head\":{},\"replay\":\"c13 --child --seed {} --threads {} --cold {} --slow {} --bytes-a <serialize(rules_a)> --bytes-b <serialize(slow rules)>\",\"ops\":{}}}",
+        let case = format!("mkCase {} [{}] {} {} {} {}", coq_nat(threads), coq_ops.join("; "), coq_n(wall_ms), coq_n(sim_ticks), coq_bool(ok), coq_n(sseed));
+        let replay = format!("{{\"session\":{},\"seed\":{},\"session_seed\":{},\"threads\":{},\"cold\":{},\"slow_threads\":{},\"wall_ms\":{},\"child_status\":{},\"killed\":{},\"class\":{},\"rules_a\":{},\"stderr_head\":{},\"deterministic\":{},\"sim_ticks\":{},\"replay\":\"c13 --child --det {} --seed {} --threads {} --cold {} --slow {} --bytes-a <serialize(rules_a)> --bytes-b <serialize(slow rules)>\",\"ops\":{}}}",
             k, seed, sseed, threads, cold, n_slow, wall_ms, status.map_or("null".to_string(), |c| c.to_string()), killed,
             json_str(&if bad.is_empty() { "ok".to_string() } else { bad.join("+") }), json_str(&sess.src_a),
-            json_str(&stderr.chars().take(600).collect::<String>()), sseed, threads, if cold { 1 } else { 0 }, n_slow,
+            json_str(&stderr.chars().take(600).collect::<String>()), det, sim_ticks, if det { 1 } else { 0 }, sseed, threads, if cold { 1 } else { 0 }, n_slow,
             parsed.as_ref().and_then(|v| v.get("ops")).map_or("[]".to_string(), |o| {
                 // keep the replay small: anomalous operations in full, the rest summarised
                 let arr = o.as_array().cloned().unwrap_or_default();
-                let anomalous: Vec<String> = arr.iter().filter(|x| x["c"] != "done" || x["eq"] == false).take(30).map(|x| x.to_string()).collect();
+                let anomalous: Vec<String> = arr.iter().filter(|x| (x["c"] != "done" && x["k"] != "scan_search_timeout") || x["eq"] == false).take(30).map(|x| x.to_string()).collect();
                 format!("{{\"count\":{},\"not_done_or_different\":[{}]}}", arr.len(), anomalous.join(","))
             }));
         if samples.len() < 2 { samples.push(replay.clone()); }
